@@ -1,5 +1,6 @@
 import RosuModel.Lemmas.ManiaPatternPath
 import RosuModel.Lemmas.ManiaPatternTime
+import RosuModel.Lemmas.ManiaPatternNew
 
 /-!
 # C19 (mania clause) — the pattern generators place every note below the key count
@@ -30,7 +31,7 @@ column below the key count. -/
 theorem hit_generator_columns_lt_total {A : PArith F} (hA : RangeLaw A) (g : HitIn F)
     (h1 : 1 ≤ g.total) (h16 : g.total ≤ 16) (stair : Nat) (s : Osu) (p : Pat) (s' : Osu) (stair' : Nat)
     (h : hitGenerate A g stair s = .ok (p, s', stair')) : ∀ n ∈ p.notes, n.col < g.total :=
-  hitGenerate_ok hA g h1 h16 stair s _ h
+  (hitGenerate_ok hA g h1 h16 stair s _ h).1
 
 /-- **(a) path (slider) generator**: every note of every pattern `generate()` returns (the
 intermediate pattern and the end-time pattern), for every span count, times and segment duration
@@ -38,13 +39,13 @@ intermediate pattern and the end-time pattern), for every span count, times and 
 theorem path_generator_columns_lt_total {A : PArith F} (hA : RangeLaw A) (g : PathIn F)
     (h1 : 1 ≤ g.total) (h16 : g.total ≤ 16) (s : Osu) (ps : List Pat) (s' : Osu)
     (h : pathGenerate A g s = .ok (ps, s')) : ∀ p ∈ ps, ∀ n ∈ p.notes, n.col < g.total :=
-  pathGenerate_ok hA g h1 h16 s _ h
+  fun p hp => (pathGenerate_ok hA g h1 h16 s _ h p hp).1
 
 /-- **(a) end-time (spinner / hold) generator.** -/
 theorem end_generator_columns_lt_total {A : PArith F} (hA : RangeLaw A) (g : EndIn)
     (h1 : 1 ≤ g.total) (h16 : g.total ≤ 16) (s : Osu) (p : Pat) (s' : Osu)
     (h : endGenerate A g s = .ok (p, s')) : ∀ n ∈ p.notes, n.col < g.total :=
-  endGenerate_ok hA g h1 h16 s _ h
+  (endGenerate_ok hA g h1 h16 s _ h).1
 
 /-- **(a) lifted over the whole conversion.**  For every seed-derived or arbitrary start state,
 every list of source objects (circles, sliders, spinners with arbitrary parameters and flags) and
@@ -55,7 +56,7 @@ theorem convert_columns_lt_total {A : PArith F} (hA : RangeLaw A) (total : Nat) 
     (trace : List (Emitted × ConvSt)) (stf : ConvSt)
     (h : convertLoop A total cd fuel st os = .ok (trace, stf)) :
     ∀ e ∈ trace, ∀ p ∈ e.1, ∀ n ∈ p.notes, n.col < total :=
-  convertLoop_ok hA total h1 h16 cd fuel os st _ h
+  fun e he p hp => (convertLoop_ok hA total h1 h16 cd fuel os st _ h e he p hp).1
 
 /-- The hypothesis on the arithmetic is satisfiable: the exact `next_int_range`
 (`trunc(lo + n/2³¹·(hi − lo))`, `Lemmas/Rng.lean`) stays in `[lo, hi)`. -/
@@ -103,6 +104,60 @@ length) is passed through unchanged — 1K, `start = 1000`, `end = 900` yields a
 example :
     ((pathGenerate exactArith ⟨1, 0, 0, 0, Pat.empty, 0, 1, 1000, 900, -100, [], 10⟩ (Osu.new 0)).map
       (fun r => r.1.map (fun p => p.notes.map (·.time)))).toOption = some [[.span 1000 900]] := by
+  decide +kernel
+
+
+/-! ### second round: the constructor's slider arithmetic, fresh columns -/
+
+/-- `floor(i + d) ≥ i` for `d ≥ 0` holds for the exact instance -/
+theorem exact_arithmetic_floor_law : FloorLaw ratArith := ratArith_floorLaw
+
+/-- **`PathObjectPatternGenerator::new` establishes the generator's preconditions**: with a
+non-negative float increment `dist·beat_len·spans·0.01/slider_multiplier` (decoded maps: distance
+≥ 0, beat length and slider multiplier positive), `start ≤ end ≤ i32::MAX`, `0 ≤ segment_duration`
+and `segment_duration·span_count ≤ end − start`.  Tied bit for bit by the MPN lines. -/
+theorem path_new_establishes_generator_preconditions {A : PArith F} (hF : FloorLaw A)
+    (startT span : Int) (dist beatLen sm : F) (hlo : -2147483648 ≤ startT) (hhi : startT ≤ 2147483647)
+    (hspan : 1 ≤ span) (hd : A.le (A.pct 0) (pathNewDelta A span dist beatLen sm) = true)
+    (r : Int × Int) (h : pathNew A startT span dist beatLen sm = .ok r) :
+    startT ≤ r.1 ∧ r.1 ≤ 2147483647 ∧ r.1 - startT ≤ 2147483647 ∧ 0 ≤ r.2 ∧ r.2 * span ≤ r.1 - startT :=
+  pathNew_wf hF startT span dist beatLen sm hlo hhi hspan hd r h
+
+/-- **(c) with the constructor's computation included**: whatever the PRNG state, flags, key count
+and previous pattern, every note the path generator emits for the `(end_time, segment_duration)`
+that `new` computed has `end ≥ start`. -/
+theorem slider_durations_nonneg_with_constructor {A : PArith F} (hF : FloorLaw A) (total : Nat) (x : Int)
+    (sample ct : Nat) (prev : Pat) (cd : F) (nodes : List Nat) (fuel : Nat)
+    (startT span : Int) (dist beatLen sm : F)
+    (hlo : -2147483648 ≤ startT) (hhi : startT ≤ 2147483647) (hspan : 1 ≤ span)
+    (hd : A.le (A.pct 0) (pathNewDelta A span dist beatLen sm) = true)
+    (e seg : Int) (hnew : pathNew A startT span dist beatLen sm = .ok (e, seg))
+    (s : Osu) (ps : List Pat) (s' : Osu)
+    (h : pathGenerate A ⟨total, x, sample, ct, prev, cd, span, startT, e, seg, nodes, fuel⟩ s = .ok (ps, s')) :
+    ∀ p ∈ ps, ∀ n ∈ p.notes, ∀ a b, n.time = .span a b → a ≤ b := by
+  intro p hp n hn a b hab
+  have := path_new_then_generate_durations hF total x sample ct prev cd nodes fuel startT span dist
+    beatLen sm hlo hhi hspan hd e seg hnew s ps s' h p hp n hn
+  rw [hab] at this
+  exact this
+
+/-- **(d) what prevents duplicates**: the column `find_available_column(.., [pattern, …])` returns is
+not yet occupied in the pattern being built (nor in any other pattern passed, nor excluded by the
+`validation` closure) — so the retry-loop generators (`generate_random_notes`, mirrored, random /
+tiled hold notes, the rows of hold-and-normal notes) never put two notes of one row in one column. -/
+theorem find_available_column_returns_fresh_column {avoid : Option Nat} {p : Rosu.Safety.Cols}
+    {ps : List Rosu.Safety.Cols} {lower upper : Nat} {next : Osu → Nat → M (Nat × Osu)} {fuel : Nat}
+    {s s' : Osu} {initial c : Nat} (hc : c < 16)
+    (h : findAvail avoid (p :: ps) lower upper next fuel s initial = .ok (c, s')) :
+    p.testBit c = false :=
+  findAvail_fresh hc h
+
+/-- …whereas one pattern does hold several objects in one column at DIFFERENT times (then
+`ContainedColumns::insert` is a no-op): a 4K stair over 7 spans visits 1,2,3,2,1,0,1,2. -/
+example :
+    ((pathGenerate exactArith ⟨4, 128, 0, 0, Pat.empty, 0, 7, 0, 1050, 150, [], 100⟩ (Osu.new 3)).map
+      (fun r => r.1.map (fun p => (p.notes.map (·.col), Rosu.Safety.Cols.len p.cols)))).toOption =
+      some [([1, 2, 3, 2, 1, 0, 1], 4), ([2], 1)] := by
   decide +kernel
 
 /-! ### non-vacuity: concrete runs of the exact instance -/
